@@ -596,7 +596,6 @@ impl Writer {
 
         // Remove stale files from system and storage statistics
         for id in &fileids_to_merge {
-            self.ctx.stats.remove(id);
             if let Err(e) = fs::remove_file(utils::hintfile_name(path, *id)) {
                 if e.kind() != io::ErrorKind::NotFound {
                     return Err(e.into());
@@ -607,6 +606,8 @@ impl Writer {
                     return Err(e.into());
                 }
             }
+            // Statistics are kept as long as the file exists so it can be merged again
+            self.ctx.stats.remove(id);
         }
 
         self.new_active_datafile(merge_fileid + 1)?;
